@@ -17,7 +17,9 @@ fn case_rng(seed: u64, idx: usize) -> Rng {
 }
 
 fn pcase_json(c: &PCase) -> String {
-    format!("{{\"globals\":{},\"sources\":[{}],\"buffers_hex\":[{}],\"overrides\":{},\"one_shot\":{},\"roundtrip\":{},\"block\":{},\"fast\":{},\"max_matches\":{},\"module_output_hex\":{},\"console\":{}}}",
+    format!("{{\"flags\":{},\"probes\":[{}],\"second_round\":{},\"inc_dir\":{},\"globals\":{},\"sources\":[{}],\"buffers_hex\":[{}],\"overrides\":{},\"one_shot\":{},\"roundtrip\":{},\"block\":{},\"fast\":{},\"max_matches\":{},\"module_output_hex\":{},\"console\":{}}}",
+        c.flags, c.probes.iter().map(|(t, s)| format!("[{},{}]", json_str(t), json_str(s))).collect::<Vec<_>>().join(","), c.second_round,
+        c.inc_dir.as_ref().map_or("null".into(), |d| json_str(d)),
         json_str(&format!("{:?}", c.globals)),
         c.sources.iter().map(|(ns, s)| format!("[{},{}]", ns.as_ref().map_or("null".into(), |n| json_str(n)), json_str(s))).collect::<Vec<_>>().join(","),
         c.buffers.iter().map(|b| format!("\"{}\"", hex(b))).collect::<Vec<_>>().join(","),
@@ -38,6 +40,7 @@ fn child(args: &[String]) -> i32 {
     let seed = arg_u64(args, "--seed", 1);
     let from = arg_u64(args, "--from", 0) as usize;
     let to = arg_u64(args, "--to", 0) as usize;
+    let inc = arg_val(args, "--inc");
     unsafe { libc::alarm(1500); }
     std::panic::set_hook(Box::new(|info| {
         emit(format!("P\tpanic: {}", info.to_string().replace(['\n', '\t'], " ")));
@@ -48,7 +51,8 @@ fn child(args: &[String]) -> i32 {
         let mut it = Interner::new();
         let parity: Option<(String, PCase)> = if idx < probes.len() { Some((probes[idx].0.to_string(), probes[idx].1.clone())) }
             else { match rng.below(20) { 0..=9 => Some(("parity".into(), gen_pcase(&mut rng))), 10..=11 => Some(("parity-module".into(), module_case(&mut rng))), _ => None } };
-        if let Some((kind, c)) = parity {
+        if let Some((kind, mut c)) = parity {
+            if !c.probes.is_empty() { c.inc_dir = inc.clone(); }
             let inputs = pcase_json(&c);
             emit(format!("B\t{}\t{}\t{}", idx, kind, inputs));
             let r = rust_flow(&c);
@@ -80,6 +84,12 @@ fn child(args: &[String]) -> i32 {
             if c.block { tags.push("parity:block-scan".into()); }
             if c.roundtrip { tags.push("parity:serialize-roundtrip".into()); }
             if !c.globals.is_empty() { tags.push("parity:globals".into()); }
+            if c.flags != 0 { tags.push("parity:compiler-flags".into()); }
+            for (bit, name) in [(1, "colorize"), (2, "relaxed-re"), (4, "error-on-slow-pattern"), (8, "error-on-slow-loop"), (16, "condition-optimization"), (32, "disable-includes")] {
+                if c.flags & bit != 0 { tags.push(format!("flag:{}", name)); }
+            }
+            if c.second_round { tags.push("parity:add-source-after-build".into()); }
+            for d in cd.iter().take(2) { for e in &d.extra { if let Ok(t) = std::str::from_utf8(e) { if t.starts_with("probe:") && (t.ends_with(":accepted") || t.ends_with(":rejected")) { tags.push(t.to_string()); } } } }
             if cd != r { tags.push("parity:DUMPS-DIFFER".into()); }
             let nontrivial = cd.iter().skip(1).any(|d| !d.rules.is_empty());
             let key = if nontrivial { format!("{:x}", { use std::hash::{Hash, Hasher}; let mut h = std::collections::hash_map::DefaultHasher::new(); joined(&c).hash(&mut h); c.buffers.hash(&mut h); h.finish() }) } else { String::new() };
@@ -127,9 +137,14 @@ pub fn run(args: &[String]) -> i32 {
     let mut samples: Vec<String> = vec![];
     let mut next = 0usize;
     let mut events = 0u64;
+    // a file for `include` statements, registered with yrx_compiler_add_include_dir / Compiler::add_include_dir
+    let inc_dir = Path::new(&out).join("inc");
+    let _ = std::fs::create_dir_all(&inc_dir);
+    if std::fs::write(inc_dir.join("c19_inc.yar"), "rule c19_included { condition: true }\n").is_err() { eprintln!("c19: cannot write the include file"); return 2; }
+    let inc_arg = inc_dir.to_string_lossy().to_string();
     while next < n {
         let mut ch = match Command::new(std::env::current_exe().unwrap())
-            .args(["--child", "--seed", &seed.to_string(), "--from", &next.to_string(), "--to", &n.to_string()])
+            .args(["--child", "--seed", &seed.to_string(), "--from", &next.to_string(), "--to", &n.to_string(), "--inc", &inc_arg])
             .stdout(Stdio::piped()).stderr(Stdio::null()).spawn() { Ok(c) => c, Err(e) => { eprintln!("c19: cannot spawn child: {e}"); return 2; } };
         let rd = std::io::BufReader::new(ch.stdout.take().unwrap());
         let mut cur: Option<(usize, String, String)> = None;
